@@ -96,6 +96,12 @@ class Ctx:
             self.say('translator:', out8.strip())
             if rc8 != 0:
                 self.problems.append(('translator', out8.strip()))
+        # shapes behind claiming (C14)
+        rc9, out9, _ = sh([sys.executable, os.path.join(VERIF, 'tools', 'claimsites.py'), REPO, os.path.join(COQ, 'gen')])
+        if self.pid == 'C14':
+            self.say('translator:', out9.strip())
+            if rc9 != 0:
+                self.problems.append(('translator', out9.strip()))
         # shapes of bump_pool.rs the pool model relies on (C19)
         rc6, out6, _ = sh([sys.executable, os.path.join(VERIF, 'tools', 'poolsites.py'), REPO, os.path.join(COQ, 'gen')])
         if self.pid == 'C19':
